@@ -353,6 +353,33 @@ Proof.
     destruct e6; discriminate.
 Qed.
 
+(* the '/' branch in general (any spelling IPNetwork() accepts, e.g. partial addresses, lenient prefixes): when it
+   succeeds it yields, ascending, exactly the addresses of the IPv4 network IPNetwork(text) denotes *)
+Theorem parse_slash_ok s xs : contains_char ch_slash s = true -> parse s = (xs, None) ->
+  exists v p, ipnetwork_of_str pton6 s = Ok (4, v, p) /\ 0 <= v < 2 ^ 32 /\ 0 < p <= 32 /\
+              let first := v - v mod 2 ^ (32 - p) in
+              xs = map (fun x => (4, x)) (py_range first (first + 2 ^ (32 - p))).
+Proof.
+  intros Hs. unfold parse_nmap_target_spec. rewrite Hs.
+  destruct (split1_cases ch_slash s) as [[Hc _]|(val1 & prefix & Es & Hv1 & Hsp)]; [congruence|].
+  rewrite Hsp. destruct (py_int 10 prefix) as [p0|] eqn:Ep; [|discriminate].
+  destruct ((0 <? p0) && (p0 <? 33)) eqn:Er; [|discriminate]. cbn [negb].
+  destruct (ipnetwork_of_str pton6 s) as [[[ver v] pl]|e] eqn:En; [|discriminate].
+  case_eqb ver 4; cbn [negb]; [|discriminate]. subst ver. intros H. injection H as <-.
+  destruct (ipnetwork_v4 _ _ _ En) as [Hv Hp].
+  (* the prefix IPNetwork() read is the one nmap checked *)
+  assert (pl = p0).
+  { unfold ipnetwork_of_str in En. destruct (parse_ip_network pton6 4 s) as [[v4 p4]|e4] eqn:E4.
+    - injection En as <- <-. unfold parse_ip_network in E4. rewrite Hsp in E4.
+      destruct (if 4 =? 4 then _ else _); [|discriminate]. cbn [bind] in E4. rewrite Ep in E4.
+      destruct (negb _); [discriminate|]. now injection E4 as _ <-.
+    - destruct e4; try discriminate. destruct (parse_ip_network pton6 6 s) as [[v6 p6]|e6]; [discriminate|].
+      destruct e6; discriminate. }
+  subst pl. exists v, p0. split; [reflexivity|]. split; [exact Hv|]. split; [lia|].
+  destruct (C02.identities_w 32 v p0 Hp Hv) as (_ & _ & _ & _ & F & L & _).
+  cbv zeta. rewrite F, L. f_equal. f_equal. lia.
+Qed.
+
 (* errors are raised before the first yield, and a generator that does not fail yields something *)
 Theorem parse_shape s :
   (exists xs, parse s = (xs, None) /\ xs <> []) \/ (exists e, parse s = ([], Some e)).
